@@ -15,13 +15,15 @@ SimNext ==
          ("forced" \in DOMAIN e /\ ~e.forced) => cancelled
 
 \* scenario steering: Scenario is a constant string
-CONSTANT Scenario
+CONSTANT Scenario,
+         MaxPend    \* MaxPendingBlocks of the real pipeline: exceeding it is reported on Errors(), but
+                    \* the block is still buffered (AProc out = "buffer"), never dropped
 ScenarioOK ==
     CASE Scenario = "any"      -> TRUE
       [] Scenario = "nostop"   -> stopPc = "none"
       [] OTHER                 -> TRUE
 
-Row == [cfg |-> [NB |-> NB, NSub |-> NSub, D |-> D, V |-> V, Cap |-> Cap, Design |-> Design],
+Row == [cfg |-> [NB |-> NB, NSub |-> NSub, D |-> D, V |-> V, Cap |-> Cap, Design |-> Design, MaxPend |-> MaxPend],
         quality |-> quality,
         hist |-> hist,
         final |-> [spc |-> spc, applied |-> applied, results |-> results,
